@@ -15,13 +15,33 @@ CLAIM = {
              "the account at X' holds at the assignment step; at the end of the transaction it fails when the transaction's omitted "
              "posting is on the same account (F12, negation theorem C03_leaves_at_X_false, replayed every run). Correspondence: "
              "omitted / assigned postings at every index among 1..6 others with costs, lots, several commodities, after histories; "
-             "the reference semantics recomputes every inferred amount from the implementation's parsed tree."),
-    "note": "modelled, not verified: rust_decimal (exact rationals), the parser (tree taken from the implementation).",
+             "the reference semantics recomputes every inferred amount from the implementation's parsed tree. TEXT level "
+             "(Lemmas/BookText2,3,5 + Props/C03Text: parser MODEL composed with `process`, every statement quantified over ledger "
+             "texts, no parser hypothesis): C03_text_assign (in every accepted text, a posting line `Account = X` without amount "
+             "receives in the FINAL transaction exactly X minus what the canonical account held in X's commodity when the line is "
+             "reached - resp. minus the whole single-commodity balance for `= 0` - and the account then holds X - resp. nothing -, "
+             "no other commodity moved), C03_text_omitted (a transaction with exactly one bare posting line: that posting carries, "
+             "in the final transaction, the negation of the sum of the other lines' balancing values, its account is moved by that "
+             "amount, every other posting keeps the amount the loop gave it; the resolved postings are pinned to the text by "
+             "TxnRun.pinned / loopSyntax_resolved), C03_text_two (two bare lines in one transaction: text not accepted), "
+             "C03_text_frame (booking a transaction leaves alone every account to which none of the account names written on its "
+             "lines resolves, aliases included). That "
+             "'written without amount' is `amount = none` and '`= X` written' is `balance = some X` is proved from the parser model "
+             "for every text (text_written, text_written_bare). NOT proved: equality of the parser model with the Rust parser "
+             "(correspondence-checked by C05/C06/C14)."),
+    "note": "modelled, not verified: rust_decimal (exact rationals); the correspondence stream takes the tree from the implementation, the text-level theorems use the parser model (tied to the real parser by C05/C06/C14).",
     "design_ref": "DESIGN.md section 6, C03",
 }
 
 THEOREMS = ["Okane.C03_assign", "Okane.C03_assign0", "Okane.C03_two", "Okane.C03_two_txn", "Okane.C03_omitted",
-            "Okane.C03_frame", "Okane.C03_frame_step", "Okane.C03_leaves_at_X_false"]
+            "Okane.C03_frame", "Okane.C03_frame_step", "Okane.C03_leaves_at_X_false",
+            # text level (Lemmas/BookText2,5; audited through Props/C03Text.lean)
+            "Okane.BookText.C03_text_assign", "Okane.BookText.C03_text_omitted", "Okane.BookText.C03_text_two",
+            "Okane.BookText.C03_text_frame", "Okane.BookText.loopSyntax_frame",
+            "Okane.BookText.loopSyntax_resolved", "Okane.BookText.omittedCount_of_shape", "Okane.BookText.finishG_posting",
+            "Okane.BookText.loopPostings_unfilled", "Okane.BookText.txnRun_of_accepted",
+            "Okane.BookText.text_written", "Okane.BookText.text_written_bare", "Okane.BookText.posting_readFrom"]
+EXTRA_IMPORTS = ["Okane.Props.C03Text"]
 
 FLAVORS = ["omitted", "multi-omitted", "assign", "assign-zero", "two-omitted", "cost", "lot", "total-cost", "lot-and-cost", "expr"]
 
@@ -46,7 +66,7 @@ def run(chk):
                 "among 1-4 others incl. several commodities, assignments incl. `= 0`, two omitted postings, costs/lots); "
                 "non-trivial = accepted or rejected by a book-keeping rule; F12's class is excluded from the end-of-transaction oracle")
     chk.assumptions = ["rust_decimal is exact on the generated values", "parser outside this check"]
-    if not standard_prologue(chk, THEOREMS):
+    if not standard_prologue(chk, THEOREMS, imports=EXTRA_IMPORTS):
         return
     replay_f12(chk)
     n = 2500 if chk.tier == "quick" else 60000
